@@ -220,8 +220,33 @@ def checkMem (j : Json) : Except String Verdict := do
     else if !ierr then v := v.mon "C17" "directory_error_swallowed" 0
   pure v
 
+/-! ### pop: the providers' own fill functions behind a real FillCache — the model's `updEnd` rule (store on success, forget
+on "group not found", keep on any other error) applied to the scripted directory answers -/
+def checkPop (j : Json) : Except String Verdict := do
+  let inp ← jget j "in"
+  let answers := (jstrArr inp "answers").toOption.getD []
+  let obs := (← jarr j "obs").toList
+  let mut v : Verdict := {}
+  let mut st : Option (List String) := none
+  let mut i := 0
+  for (a, o) in answers.zip obs do
+    if a == "notfound" then st := none
+    else if a == "err" then pure ()
+    else
+      let ms := (a.drop 3).toString
+      st := some (if ms == "" then [] else (ms.splitOn ",").toArray.qsort (· < ·) |>.toList)
+    let cached := (o.getObjVal? "cached").toOption.bind (·.getBool?.toOption) |>.getD false
+    let got : Option (List String) := if cached then some ((jstrArr o "members").toOption.getD []) else none
+    v := v.cmp i "pop.cache" st got ["C17"]
+    if a == "notfound" && cached then v := v.mon "C17" "deleted_group_dropped" i s!"still cached: {got}"
+    v := v.br s!"pop/{if a == "notfound" then "notfound" else if a == "err" then "err" else "ok"}"
+    i := i + 1
+  v := { v with nontrivial := true }
+  pure v
+
 def checkCase (j : Json) : Except String Verdict := do
   match (← jstr j "kind") with
+  | "pop" => checkPop j
   | "gc" => checkGc j
   | "fc" => checkFc j
   | "mem" => checkMem j
